@@ -22,7 +22,7 @@ func init() {
 	register(func() {
 		engine.Register(&engine.Check{
 			ID: "C15", Level: "model_checking",
-			Rule:        "documents holding strings and keys of 1, 2, 63, 64, 65 and 200 bytes (with and without escapes / multi-byte runes) in the three wire formats x chunk schedules (every cut set for short documents, deviation-bounded beyond, single bytes, strides; the chunking decides whether a string is handed over from the caller's buffer, the parser's internal buffer or fresh memory) x entry points {Parser.Write, ParseReader, reader Decoder (whose read buffer is reused by construction), byte-slice Decoder} x targets {interface{}, map[string]string, []string, struct with string fields, map[string]interface{} with key cache} x a follow-up document of equal or different length that reuses the buffers x ONE garbage collection at event boundary g for every g (thorough: also at every 11th instrumented point - function entry or loop iteration - inside the library); the harness hands every chunk out in a scratch slice and overwrites it with 0xAA as soon as Write/Read returns; built with checkptr, run with GODEBUG=clobberfree=1, automatic GC off (a collection happens only where the explorer puts one); oracle: the target rendered right after the first document == after scribbling == after the follow-up document == after a final forced GC == the result of a clean whole-buffer run; the fold side (Fold -> encoder) under the same GC schedule writes the same bytes; a case = (document, target, entry, schedule, GC position)",
+			Rule:        "documents holding strings and keys of 1, 2, 63, 64, 65 and 200 bytes (with and without escapes / multi-byte runes) in the three wire formats x chunk schedules (every cut set for short documents, deviation-bounded beyond, single bytes, strides; the chunking decides whether a string is handed over from the caller's buffer, the parser's internal buffer or fresh memory) x entry points {Parser.Write, ParseReader, reader Decoder (whose read buffer is reused by construction), byte-slice Decoder, Write(head) followed by Parse(tail) or ParseString(tail) on the same parser} x targets {interface{}, map[string]string, []string, struct with string fields, map[string]interface{} with key cache} x a follow-up document of equal or different length that reuses the buffers x ONE garbage collection at event boundary g for every g (thorough: also at every 11th instrumented point - function entry or loop iteration - inside the library); the harness hands every chunk out in a scratch slice and overwrites it with 0xAA as soon as Write/Read returns; built with checkptr, run with GODEBUG=clobberfree=1, automatic GC off (a collection happens only where the explorer puts one); oracle: the target rendered right after the first document == after scribbling == after the follow-up document == after a final forced GC == the result of a clean whole-buffer run; the fold side (Fold -> encoder) under the same GC schedule writes the same bytes; a case = (document, target, entry, schedule, GC position)",
 			Assumptions: []string{"an alias is visible only if the aliased bytes are overwritten afterwards: the harness overwrites every buffer it owns and forces reuse of internal buffers with follow-up tokens of at least the same length", "memory safety is observed (checkptr, clobberfree, value comparison), not proved"},
 			Families:    c15Families,
 			Bounds: func(tier string) map[string]interface{} {
@@ -173,9 +173,9 @@ func c15Families(tier string) []engine.Family {
 	var fams []engine.Family
 	for _, cd := range codecs {
 		cd := cd
-		fams = append(fams, engine.Family{Name: "unfold-" + cd.Name, Arity: []int{len(strs), 4, c15Targets}, Dev: dev, Body: func(x *engine.Exec) {
+		fams = append(fams, engine.Family{Name: "unfold-" + cd.Name, Arity: []int{len(strs), 6, c15Targets}, Dev: dev, Body: func(x *engine.Exec) {
 			s := strs[x.Choose(len(strs))]
-			entry := x.Choose(4)
+			entry := x.Choose(6)
 			tk := x.Choose(c15Targets)
 			keyIsLong := x.Bool()
 			k, v := "k", s
@@ -197,9 +197,9 @@ func c15Families(tier string) []engine.Family {
 		cd := cd
 		// second document shape: member values are objects and null, targets are maps with struct / pointer / map elements
 		// (reflection-based map unfolder) and maps behind a key cache of 1 and 2 entries (three distinct keys per document)
-		fams = append(fams, engine.Family{Name: "unfold-maps-" + cd.Name, Arity: []int{len(strs), 4, 5}, Dev: dev, Body: func(x *engine.Exec) {
+		fams = append(fams, engine.Family{Name: "unfold-maps-" + cd.Name, Arity: []int{len(strs), 6, 5}, Dev: dev, Body: func(x *engine.Exec) {
 			s := strs[x.Choose(len(strs))]
-			entry := x.Choose(4)
+			entry := x.Choose(6)
 			tk := x.Choose(5)
 			keyIsLong := x.Bool()
 			k, v := "k", s
@@ -257,7 +257,7 @@ func c15Unfold(x *engine.Exec, cd *Codec, doc, next []byte, entry, tk, full int,
 
 func c15UnfoldT(x *engine.Exec, cd *Codec, doc, next []byte, entry, tk, full int, class string, mkTarget func() (interface{}, int)) {
 	c15Housekeeping()
-	entryName := [...]string{"Parser.Write", "ParseReader", "ReaderDecoder", "BytesDecoder"}[entry]
+	entryName := [...]string{"Parser.Write", "ParseReader", "ReaderDecoder", "BytesDecoder", "Parser.Write(head)+Parse(tail)", "Parser.Write(head)+ParseString(tail)"}[entry]
 	// clean reference run
 	cleanT, _ := mkTarget()
 	cleanT2, _ := mkTarget()
@@ -292,6 +292,11 @@ func c15UnfoldT(x *engine.Exec, cd *Codec, doc, next []byte, entry, tk, full int
 	var chunks [][2]int
 	if entry != 3 {
 		chunks = c15Chunks(x, len(doc), full)
+	}
+	if entry >= 4 && (len(chunks) < 2 || cd == codecJSON) {
+		// the mixed entry points need a head and a tail; json.Parser.Parse starts a new document (it resets the parser),
+		// so it cannot complete what Write began
+		return
 	}
 	gcAt := x.Dev(E+1) - 1 // -1: no GC
 	stepGC := int64(0)
@@ -373,6 +378,36 @@ func c15UnfoldT(x *engine.Exec, cd *Codec, doc, next []byte, entry, tk, full int
 				sawInternal = true
 			}
 			if err := second(func() error { return feedWrite(w, next, whole(next)) }); err != nil {
+				return err
+			}
+		case 4, 5:
+			// one parser: all chunks but the last through Write (scribbled), the last one through Parse / ParseString; the
+			// follow-up document arrives in single bytes, which sends its strings through the parser's internal buffer
+			p := cd.NewParser(tap)
+			w := p.(io.Writer)
+			last := len(chunks) - 1
+			if err := feedWrite(w, doc, chunks[:last]); err != nil {
+				return err
+			}
+			tail := exact(doc[chunks[last][0]:chunks[last][1]])
+			var err error
+			if entry == 4 {
+				err = cd.ParseWith(p, tail)
+				for i := range tail {
+					tail[i] = 0xAA
+				}
+			} else {
+				err = cd.ParseStrWith(p, string(tail))
+			}
+			if err != nil {
+				return err
+			}
+			sawInternal = true
+			var bytewise [][2]int
+			for i := range next {
+				bytewise = append(bytewise, [2]int{i, i + 1})
+			}
+			if err := second(func() error { return feedWrite(w, next, bytewise) }); err != nil {
 				return err
 			}
 		case 1:
